@@ -267,6 +267,17 @@ def judge_seedalone(c_exe, sc):
     return None
 
 
+def judge_thread_identity(c_exe, sc):
+    """Which thread makes the calls: run 0 (seed; mark; calls — no history) on the main thread of the process and on a
+    freshly created thread must print the same."""
+    a = run_c(c_exe, Scenario(sc.kind, "main", sc.runs[:1]))
+    b = run_c(c_exe, Scenario(sc.kind, "seq", sc.runs[:1]))
+    if a[0] != 0 or b[0] != 0 or a[1] != b[1]:
+        d = vlib.first_diff(a[1][0] if a[1] else [], b[1][0] if b[1] else [])
+        return "the main thread and a new thread draw different values from the same seed at operation %s" % d
+    return None
+
+
 def judge_threads(c_exe, sc):
     """None if every run prints the same when all threads run at once as when they run one after the other."""
     one = Scenario(sc.kind, "seq", sc.runs)
